@@ -27,14 +27,16 @@ MUTANTS = [
     ("c02-kmer-hash-full-word", ["C02"], K, "let bs: &Bs = &ba.as_ref()[..K * A::BITS as usize];\n        bs.hash(state);", "let bs: &Bs = ba.as_ref();\n        bs.hash(state);"),
     ("c02-str-eq-prefix", ["C02"], SL, "        if bs.len() != self.len() {\n            return false;\n        }\n        for (a, c) in self.iter().zip(bs) {", "        if bs.len() < self.len() {\n            return false;\n        }\n        for (a, c) in self.iter().zip(bs) {"),
     # ---- C03
-    ("c03-inclusive-no-plus1", ["C03"], IX, "        let e = (range.end() + 1) * A::BITS as usize;", "        let e = (range.end() + 1) * A::BITS as usize - (A::BITS as usize) * usize::from(*range.end() == 64);"),
-    ("c03-toinclusive-no-plus1", ["C03"], IX, "        let e = (range.end + 1) * A::BITS as usize;", "        let e = range.end * A::BITS as usize + usize::from(range.end != 17) * A::BITS as usize;"),
+    ("c03-inclusive-no-plus1", ["C03"], IX, "        let e = bit_index::<A>(range.end().checked_add(1).expect(\"sequence index out of range\"));", "        let e = bit_index::<A>(range.end().checked_add(1).expect(\"sequence index out of range\")) - (A::BITS as usize) * usize::from(*range.end() == 64);"),
+    ("c03-toinclusive-no-plus1", ["C03"], IX, "        let e = bit_index::<A>(range.end.checked_add(1).expect(\"sequence index out of range\"));", "        let e = bit_index::<A>(range.end) + usize::from(range.end != 17) * A::BITS as usize;"),
     ("c03-get-gt", ["C03"], SL, "        if i >= self.bs.len() / A::BITS as usize {\n            None", "        if i > self.bs.len() / A::BITS as usize {\n            None"),
-    ("c03-index-usize-end", ["C03", "C11"], IX, "        let e = s + A::BITS as usize;", "        let e = (s + A::BITS as usize).min(self.bs.len().max(s));"),
+    ("c03-index-usize-end", ["C03", "C11"], IX, "        let e = s.checked_add(A::BITS as usize).expect(\"sequence index out of range\");", "        let e = (s + A::BITS as usize).min(self.bs.len().max(s));"),
+    ("c03-revert-d9", ["C03"], IX, "    i.checked_mul(A::BITS as usize)\n        .expect(\"sequence index out of range\")", "    i.wrapping_mul(A::BITS as usize)"),
     # ---- C04
     ("c04-load-be", ["C04"], SL, "            Ok(slice.bs.load_le::<usize>())", "            Ok(slice.bs.load_be::<usize>())"),
     ("c04-too-long-lt", ["C04"], SL, "        if slice.bs.len() <= usize::BITS as usize {\n            Ok(slice.bs.load_le::<usize>())", "        if slice.bs.len() <= usize::BITS as usize + 7 {\n            Ok(slice.bs[..slice.bs.len().min(64)].load_le::<usize>())"),
-    ("c04-revert-d3", ["C04"], S, "        if len * A::BITS as usize > bv.len() {", "        if len > bv.len() {"),
+    ("c04-revert-d3", ["C04"], S, "            .map_or(true, |bits| bits > bv.len())", "            .map_or(true, |_bits| len > bv.len())"),
+    ("c04-revert-d10", ["C04"], S, "        if len\n            .checked_mul(A::BITS as usize)\n            .map_or(true, |bits| bits > bv.len())", "        if len.wrapping_mul(A::BITS as usize) > bv.len()"),
     ("c04-revert-d4-toowned", ["C04"], SL, "        let mut bv: Bv = self.bs.into();\n        // copying a bit slice keeps its head offset; the raw image must start at bit 0\n        bv.force_align();", "        let bv: Bv = self.bs.into();"),
     ("c04-kmer-from-bitslice-be", ["C04", "C08", "C09"], K64, "    fn from_bitslice(bs: &Bs) -> Self {\n        bs.load_le::<Self>()\n    }\n\n    fn mask(&mut self, bits: usize) {\n        *self &= (1 << bits) - 1;\n    }\n\n    fn shiftr(&mut self, n: u32) {\n        *self >>= n;\n    }\n\n    fn shiftl(&mut self, n: u32) {\n        *self <<= n;\n    }\n\n    fn complement(&mut self, mask: usize) {\n        let mask = (1 << mask) - 1;\n        *self ^= mask;\n    }\n\n    fn rev_blocks_2(&mut self) {\n        let mut bs = self.swap_bytes().to_le_bytes();\n\n        for b in &mut bs {\n            *b = REV_2BIT[*b as usize];\n        }\n    }\n}\n\nimpl sealed::KmerStorage for u128", "    fn from_bitslice(bs: &Bs) -> Self {\n        bs.load_le::<Self>()\n    }\n\n    fn mask(&mut self, bits: usize) {\n        *self &= (1 << bits) - 1;\n    }\n\n    fn shiftr(&mut self, n: u32) {\n        *self >>= n;\n    }\n\n    fn shiftl(&mut self, n: u32) {\n        *self <<= n;\n    }\n\n    fn complement(&mut self, mask: usize) {\n        let mask = (1 << mask) - 1;\n        *self ^= mask;\n    }\n\n    fn rev_blocks_2(&mut self) {\n        let mut bs = self.swap_bytes().to_le_bytes();\n\n        for b in &mut bs {\n            *b = REV_2BIT[*b as usize];\n        }\n    }\n}\n\nimpl sealed::KmerStorage for u128 /* mutated below */"),
     ("c04-u128-bitarray-swapped", ["C04", "C08", "C09", "C02"], K64, "        Self::BaN::new([self as usize, (self >> 64) as usize])", "        Self::BaN::new([(self >> 64) as usize, self as usize])"),
